@@ -642,6 +642,8 @@ def load_fields(stream: "SupportsRead[bytes]") -> Generator[ParsedField, None, N
         elif wire_type == WIRE_FIXED_32:
             decoded = _read_exact(stream, 4)
             raw += decoded
+        else:
+            raise ValueError(f"Unsupported wire type {wire_type} in field {number}.")
 
         yield ParsedField(number=number, wire_type=wire_type, value=decoded, raw=raw)
 
@@ -665,6 +667,8 @@ def parse_fields(value: bytes) -> Generator[ParsedField, None, None]:
             i += length
         elif wire_type == WIRE_FIXED_32:
             decoded, i = value[i : i + 4], i + 4
+        else:
+            raise ValueError(f"Unsupported wire type {wire_type} in field {number}.")
 
         if i > len(value):
             raise EOFError("Buffer ended unexpectedly in the middle of a field.")
